@@ -77,3 +77,10 @@ $E C17 rename-operation-locals codescan/operations.go 's/\bpthObj\b/item/g' 's/\
 $E C17 rename-newspecbuilder-locals codescan/spec.go 's/func newSpecBuilder(input \*spec.Swagger/func newSpecBuilder(in *spec.Swagger/' '/^func newSpecBuilder/,/^}/s/\binput\b/in/g' '/^func newSpecBuilder/,/^}/s/in:  *in,/input:       in,/'
 $E C18 rename-xorder-locals generator/spec.go 's/\bxOrderIndex\b/at/g' 's/\bpSlice\b/schemaKeys/g'
 $E C05 dash-tag-switch generator/structs.go 's/^\tif result.String() == "-" {$/\tif tag := result.String(); tag == "-" {/'
+# round 11
+$E C12 rename-comparevalues-locals cmd/swagger/commands/diff/checks.go 's/\bval1\b/before/g' 's/\bval2\b/after/g'
+$E C10 rename-checkopts-locals generator/shared.go 's/\bpth\b/located/g'
+$E C19 rename-initspec-locals cmd/swagger/commands/initcmd/spec.go 's/\binfo\b/meta/g' 's/\bdoc\b/document/g'
+for id in C07 C08 C10; do $E $id rename-planning-locals generator/support.go 's/\boperationNames\b/sortedOps/g' 's/\breread\b/decoded/g' 's/\borig\b/original/g' 's/\bmodelNames\b/sortedModels/g'; done
+$E C15 rename-analysedefinitions-locals cmd/swagger/commands/diff/spec_analyser.go 's/\bnames1\b/oldNames/g' 's/\bname1\b/oldName/g'
+$E C11 rename-configureopts-locals generator/config.go 's/\bopts\b/options/g'
